@@ -1,8 +1,227 @@
-import EdpVerif.Drv.Common
+import EdpVerif.Drv.Etf
+import EdpVerif.Drv.C05
+import EdpVerif.Generated.Control
+import EdpVerif.Impl.Receiver
+import EdpVerif.Spec.Receiver
 namespace Edp.Drv
+open Edp Edp.Framing Edp.Receiver
 
-/-- driver requests of property C19 (stub: nothing handled yet) -/
+namespace C19
+
+def tbl : Control.Table := Gen.controlTable
+
+structure DWorld where
+  node : Bytes
+  live : List PidF
+  names : List (Bytes × PidF)
+  calls : List RpcKey
+
+def getPid (s : String) : Except String PidF :=
+  match Term.ofText s with
+  | some (.pid p) => .ok p
+  | _ => .error ("bad-pid " ++ s.take 40)
+
+def listOf (s : String) : List String := if s.isEmpty then [] else s.splitOn "/"
+
+def getCall (s : String) : Except String RpcKey :=
+  match s.splitOn "." with
+  | [a, b, c] =>
+    match a.toNat?, b.toNat?, c.toNat? with
+    | some x, some y, some z => .ok (x, y, z)
+    | _, _, _ => .error "bad-call"
+  | _ => .error "bad-call"
+
+def getName (s : String) : Except String (Bytes × PidF) :=
+  match Control.splitFirst s ':' with
+  | some (n, p) => do
+    let nb ← C05.getBytes n
+    let pid ← getPid p
+    pure (nb, pid)
+  | none => .error "bad-name"
+
+/-- `n=<hex>;p=<pid>/..;r=<hex>:<pid>/..;c=<id>.<serial>.<creation>/..` -/
+def getWorld (s : String) : Except String DWorld :=
+  match s.splitOn ";" with
+  | [n, p, r, c] =>
+    match Control.splitFirst n '=', Control.splitFirst p '=', Control.splitFirst r '=', Control.splitFirst c '=' with
+    | some ("n", nv), some ("p", pv), some ("r", rv), some ("c", cv) => do
+      let node ← C05.getBytes nv
+      let live ← (listOf pv).mapM getPid
+      let names ← (listOf rv).mapM getName
+      let calls ← (listOf cv).mapM getCall
+      pure ⟨node, live, names, calls⟩
+    | _, _, _, _ => .error "bad-world"
+  | _ => .error "bad-world"
+
+def getItem (t : String) : Except String Item :=
+  match t.toList with
+  | ['t'] => .ok .tick
+  | ['e'] => .ok .close
+  | 'f' :: r => (C05.getBytes (String.ofList r)).map .frame
+  | 'r' :: r => (C05.getBytes (String.ofList r)).map .raw
+  | 'q' :: r =>
+    match (String.ofList r).toNat? with
+    | some ms => .ok (.quiet ms)
+    | none => .error "bad-quiet"
+  | 'o' :: r =>
+    match (String.ofList r).toNat? with
+    | some n => .ok (.overlong n)
+    | none => .error "bad-overlong"
+  | 'x' :: r =>
+    match Control.splitFirst (String.ofList r) '.' with
+    | some (n, part) =>
+      match n.toNat? with
+      | some len => (C05.getBytes part).map (.cut len)
+      | none => .error "bad-cut"
+    | none => .error "bad-cut"
+  | _ => .error "bad-item"
+
+def getHistory (s : String) : Except String (List Item) :=
+  if s == "-" then .ok [] else (s.splitOn "/").mapM getItem
+
+def initial (w : DWorld) : NodeSt :=
+  { procs := w.live.map fun p => (p.key, [])
+    names := w.names.map fun (n, p) => (n, p.key)
+    pending := w.calls
+    replies := [] }
+
+def joinOr (sep : String) (l : List String) : String := if l.isEmpty then "-" else sep.intercalate l
+
+/-- the model's prediction of what the harness observes after `h` has been sent and absorbed: the peer stays silent
+from then on (the sentinel `stall`), so the loop is still running exactly when it is that silence that ends it -/
+def predict (x : Ext) (w : DWorld) (h : List Item) : String :=
+  let fin := loop x tbl (initial w) (wire idleLimitMs 0 h ++ [.stall])
+  let status :=
+    if fin.why == .panic then "crashed"
+    else if fin.why == .timeout && fin.rest.isEmpty then "alive" else "stopped"
+  let logs := w.live.map fun p =>
+    match mailbox fin.node p.key with
+    | some mb => joinOr "/" (mb.map LMsg.text)
+    | none => "gone"
+  let rpcs := w.calls.map fun k =>
+    match fin.node.replies.find? (fun r => r.1 == k) with
+    | some (_, t) => "ok!" ++ t.text
+    | none => "-"
+  status ++ "@" ++ ";".intercalate logs ++ "@" ++ joinOr ";" rpcs
+
+/-- events of the direct-call harness: `c<hex>` one write, `q<ms>` silence, `e` close. A silence is `Pending` polls
+while the silence since the last write stays below the limit, and the timeout firing otherwise. -/
+def getRxEvs (limit : Nat) (s : String) : Except String (List Ev) :=
+  let rec go (ts : List String) (w : Nat) : Except String (List Ev) :=
+    match ts with
+    | [] => .ok []
+    | t :: r =>
+      match t.toList with
+      | ['e'] => (go r 0).map (.eof :: ·)
+      | 'c' :: hx =>
+        match C05.unhexTR hx [] with
+        | some b => (go r 0).map (.chunk b :: ·)
+        | none => .error "bad-chunk"
+      | 'q' :: d =>
+        match (String.ofList d).toNat? with
+        | some ms => if w + ms < limit then (go r (w + ms)).map (.pending :: ·) else (go r 0).map (.stall :: ·)
+        | none => .error "bad-quiet"
+      | _ => .error "bad-event"
+  go (s.splitOn ",") 0
+
+def showRx : Except RxErr Received → String
+  | .error e => e.text
+  | .ok (m, p) =>
+    "ok!" ++ (match Control.toTerm tbl m with | some t => t.text | none => "?") ++ "!" ++
+      (match p with | some t => t.text | none => "-")
+
+/-! ### the oracle: the observed outcome against Spec/Receiver.lean -/
+
+open Spec.Receiver in
+def specWorld (w : DWorld) : Spec.Receiver.World :=
+  { node := cps w.node
+    live := w.live.map fun p => (Term.pid p).den
+    names := w.names.map fun (n, p) => (cps n, (Term.pid p).den)
+    calls := w.calls }
+
+def specItem : Item → Spec.Receiver.Item
+  | .frame [] => .tick
+  | .frame b => .frame b
+  | .tick => .tick
+  | .quiet ms => .quiet ms
+  | .overlong _ => .overlong
+  | .cut _ _ => .cut
+  | .raw _ => .raw
+  | .close => .close
+
+def getNote (s : String) : Except String Spec.Receiver.Note :=
+  match s.splitOn "!" with
+  | ["reg", b] => do pure (.message (← getTerm b).den)
+  | ["exit", p, r] => do pure (.exit (← getTerm p).den (← getTerm r).den)
+  | ["mon", p, f, r] => do pure (.down (← getTerm p).den (← getTerm f).den (← getTerm r).den)
+  | _ => .error ("unexpected-entry " ++ s.take 60)
+
+def getBox (s : String) : Except String (List Spec.Receiver.Note) :=
+  if s == "-" then .ok [] else (s.splitOn "/").mapM getNote
+
+def getResult (s : String) : Except String (Option Value) :=
+  if s == "-" then .ok none else
+  match s.splitOn "!" with
+  | ["ok", t] => do pure (some (← getTerm t).den)
+  | _ => .error ("unexpected-result " ++ s.take 60)
+
+def sameBox : List Spec.Receiver.Note → List Spec.Receiver.Note → Bool
+  | [], [] => true
+  | a :: r, b :: q => a.same b && sameBox r q
+  | _, _ => false
+
+def boxText (b : List Spec.Receiver.Note) : String := "[" ++ ", ".intercalate (b.map (·.text)) ++ "]"
+
+def judge (env : Spec.Env) (w : DWorld) (h : List Item) (observed : String) : Except String String := do
+  let e := Spec.Receiver.expect env (specWorld w) (h.map specItem)
+  match observed.splitOn "@" with
+  | [status, logs, rpcs] =>
+    let fateOk := match e.fate with
+      | .alive => status == "alive"
+      | .gone => status == "stopped"
+      | .either => status == "alive" || status == "stopped"
+    if !fateOk then
+      pure ("FAIL connection " ++ status ++ " where the protocol expects " ++ reprStr e.fate)
+    else if !e.judged then pure "ok"
+    else
+      let boxes ← (if w.live.isEmpty then [] else logs.splitOn ";").mapM getBox
+      let results ← (if w.calls.isEmpty then [] else rpcs.splitOn ";").mapM getResult
+      if boxes.length != e.boxes.length then pure "FAIL number of processes" else
+      match (List.range boxes.length).find? (fun i => !sameBox (boxes.getD i []) (e.boxes.getD i [])) with
+      | some i =>
+        pure ("FAIL process " ++ toString i ++ " received " ++ boxText (boxes.getD i []) ++ " expected " ++
+          boxText (e.boxes.getD i []))
+      | none =>
+        if results.length != e.results.length then pure "FAIL number of calls" else
+        match (List.range results.length).find? (fun i =>
+            match results.getD i none, e.results.getD i none with
+            | none, none => false
+            | some a, some b => !Value.same a b
+            | _, _ => true) with
+        | some i => pure ("FAIL call " ++ toString i ++ " got " ++
+            (match results.getD i none with | some v => v.text | none => "nothing") ++ " expected " ++
+            (match e.results.getD i none with | some v => v.text | none => "nothing"))
+        | none => pure "ok"
+  | _ => pure ("FAIL " ++ observed.take 80)
+
+end C19
+
+/-- driver requests of property C19 -/
 def handleC19 : List String → Option String
+  -- `c19node <oracle> <world> <history>`
+  | ["c19node", o, w, h] => some <| run do
+    let w ← C19.getWorld w
+    let h ← C19.getHistory h
+    pure (C19.predict (parseOracle o).ext w h)
+  -- `c19rx <limit> <oracle> <events>`
+  | ["c19rx", limit, o, evs] => some <| run do
+    let evs ← C19.getRxEvs limit.toNat! evs
+    pure (",".intercalate ((rxAll (parseOracle o).ext C19.tbl evs).map C19.showRx))
+  -- `c19spec <oracle> <world> <history> <observed>`
+  | ["c19spec", o, w, h, obs] => some <| run do
+    let w ← C19.getWorld w
+    let h ← C19.getHistory h
+    C19.judge (parseOracle o).env w h obs
   | _ => none
 
 end Edp.Drv
